@@ -88,6 +88,14 @@ def run_case(kind, q):
             frames = np.stack([(q["bg"] + q["contrast"] * masks.circular(centerX=p_[1], centerY=p_[0], imageSizeX=shape[1],
                                                                          imageSizeY=shape[0], radius=radius, antialiased=True)
                                 ).astype(np.float32) for p_ in poss])
+            if q.get("wide"):
+                # the same disks as 64-bit data (float64 / int32 / int64) on a large constant level: exactly representable in the
+                # frame dtype, not in single precision
+                lev, dt_ = q["wide"]
+                frames = np.stack([np.round(lev + q["contrast"] * masks.circular(
+                    centerX=p_[1], centerY=p_[0], imageSizeX=shape[1], imageSizeY=shape[0], radius=radius, antialiased=True) * 8) / 8
+                    for p_ in poss])
+                frames = (np.round(frames) if dt_ != "float64" else frames).astype(dt_)
             for nm, fn in (("process_frames_fast", cc.process_frames_fast), ("process_frames_full", cc.process_frames_full)):
                 try:
                     outs = fn(pattern, frames, start[np.newaxis])
@@ -195,6 +203,9 @@ def search(ctx, boost=1, focus=()):
             q["stack"] = [[0.0, 0.0]] + [[float(rng.uniform(-room, room)), float(rng.uniform(-room, room))] for _ in range(2)] \
                 if room > 0 else [[0.0, 0.0]] * 2
             ctx.count("stacks")
+            if (k // 8) % 2 == 1 and q["contrast"] >= 4:
+                q["wide"] = [float(rng.choice([2.0 ** 26, 2.0 ** 30, 2.0 ** 31 - 4096])), ("float64", "int32", "int64", "float64")[(k // 16) % 4]]
+                ctx.count("wide_stacks")
         ctx.oracle_case("linear", q, run_case("linear", q))
         ctx.count("linear_" + pat["kind"])
     for k in range(n // 3):
